@@ -15,8 +15,8 @@
 \* trace specification to name the one known divergence.
 \*
 \* Values are pool indices (the real values of a scenario are a sorted pool of
-\* distinct doubles, only the order matters), constraints are closed intervals
-\* <<lo, hi>> of pool indices, <<>> = unconstrained.
+\* distinct doubles, only the order matters), constraints are intervals
+\* <<lo, hi, il, iu>> of pool indices with inclusion flags, <<>> = unconstrained.
 EXTENDS Integers, Sequences, FiniteSets, TLC
 
 CONSTANTS Names,      \* parameter names: integers >= 1; the key order of a name map is the integer order
@@ -40,11 +40,21 @@ NoCon == <<>>
 \* ------------------------------------------------------------------ intervals
 Mn(x, y) == IF x <= y THEN x ELSE y
 Mx(x, y) == IF x >= y THEN x ELSE y
-Accepts(c, v) == IF c = NoCon THEN TRUE ELSE (c[1] <= v /\ v <= c[2])
-Inter(c, d)   == <<Mx(c[1], d[1]), Mn(c[2], d[2])>>
-IsEmptyI(c)   == IF c = NoCon THEN FALSE ELSE c[1] > c[2]
-\* accept set of c is included in the accept set of d
-Within(c, d)  == IF d = NoCon THEN TRUE ELSE IF c = NoCon THEN FALSE ELSE (IsEmptyI(c) \/ (d[1] <= c[1] /\ c[2] <= d[2]))
+Accepts(c, v) == IF c = NoCon THEN TRUE
+                 ELSE (IF c[3] THEN v >= c[1] ELSE v > c[1]) /\ (IF c[4] THEN v <= c[2] ELSE v < c[2])
+\* the larger lower bound, the smaller upper bound; at equal bounds the bound is
+\* included only if both include it
+Inter(c, d)   == <<Mx(c[1], d[1]), Mn(c[2], d[2]),
+                   IF c[1] > d[1] THEN c[3] ELSE IF d[1] > c[1] THEN d[3] ELSE (c[3] /\ d[3]),
+                   IF c[2] < d[2] THEN c[4] ELSE IF d[2] < c[2] THEN d[4] ELSE (c[4] /\ d[4])>>
+IsEmptyI(c)   == IF c = NoCon THEN FALSE ELSE (c[1] > c[2] \/ (c[1] = c[2] /\ ~(c[3] /\ c[4])))
+\* accept set (over the reals) of c is included in the accept set of d
+Within(c, d)  == IF d = NoCon THEN TRUE ELSE IF c = NoCon THEN FALSE
+                 ELSE \/ IsEmptyI(c)
+                      \/ /\ (d[1] < c[1] \/ (d[1] = c[1] /\ (d[3] \/ ~c[3])))
+                         /\ (c[2] < d[2] \/ (c[2] = d[2] /\ (d[4] \/ ~c[4])))
+\* same accept set, whatever the representation
+SameSet(c, d) == IF c = NoCon \/ d = NoCon THEN c = d ELSE (c = d \/ (IsEmptyI(c) /\ IsEmptyI(d)))
 
 \* ------------------------------------------------------------------ functions
 Put(f, k, v)  == [x \in DOMAIN f \cup {k} |-> IF x = k THEN v ELSE f[x]]
@@ -91,13 +101,12 @@ Writes(R, ws, alg) ==
        IN Writes(R1, Tail(ws), alg)
 WNames(ws) == {ws[i][1] : i \in DOMAIN ws}
 \* lists inside the quantifier: distinct names, no value conflict between a
-\* listed parameter and a listed ancestor of it, every value acceptable
+\* listed parameter and a listed ancestor of it
 WritesConsistent(R, ws) ==
   /\ \A i, j \in DOMAIN ws : i # j => ws[i][1] # ws[j][1]
   /\ \A i, j \in DOMAIN ws : (ws[i][1] \in R.par /\ ws[j][1] \in R.par /\ ws[i][1] \in Anc(R, ws[j][1])) => ws[i][2] = ws[j][2]
-WritesAcceptable(R, ws) == \A i \in DOMAIN ws : ws[i][1] \in R.par => SetAcceptable(R, ws[i][1], ws[i][2])
-\* the pre-check of the bulk calls: a listed parameter's own constraint rejects its value
-WritesRejected(R, ws) == \E i \in DOMAIN ws : ws[i][1] \in R.par /\ ~Accepts(R.con[ws[i][1]], ws[i][2])
+\* a listed value is rejected by the constraint of the listed parameter or of one of its followers
+WritesRejected(R, ws) == \E i \in DOMAIN ws : ws[i][1] \in R.par /\ ~SetAcceptable(R, ws[i][1], ws[i][2])
 WritesDiffer(R, ws) == \E i \in DOMAIN ws : ws[i][1] \in R.par /\ R.val[ws[i][1]] # ws[i][2]
 
 \* ------------------------------------------------------------------ alias / unalias on one owner record
@@ -107,22 +116,33 @@ AliasRefused(R, a, b) ==
   \/ b \notin R.ind                   \* already aliased: cannot be aliased twice
   \/ a = b \/ b \in Anc(R, a)         \* would close a cycle (any length)
 
-AliasNewCon(R, a, b) ==              \* <<constraint of a, constraint of b>> after the link (adopt = FALSE)
-  IF R.con[a] # NoCon /\ R.con[b] # NoCon THEN <<Inter(R.con[a], R.con[b]), Inter(R.con[a], R.con[b])>>
-  ELSE IF R.con[b] # NoCon THEN <<R.con[b], R.con[b]>>
-  ELSE <<R.con[a], R.con[b]>>
-\* inside the quantifier: both current values satisfy the constraints they end up with
-AliasInside(R, a, b) == LET nc == AliasNewCon(R, a, b) IN Accepts(nc[1], R.val[a]) /\ Accepts(nc[2], R.val[b])
-
+\* Constraints after the link.  The constraint a and b share is the intersection
+\* when both are constrained, b's when only b is.  up: the parameters a itself
+\* follows hand their value down to b as well - the code restricts them too; an
+\* implementation that refuses such writes instead need not (up = FALSE).
 \* adopt: when only the source is constrained the statement does not say
-\* whether the follower takes the constraint over; both are allowed
-AliasEff(R, a, b, adopt) ==
-  LET nc == AliasNewCon(R, a, b)
-      cb == IF adopt /\ R.con[b] = NoCon THEN R.con[a] ELSE nc[2] IN
+\* whether the follower takes the constraint over.
+AliasShared(R, a, b) == IF R.con[a] # NoCon /\ R.con[b] # NoCon THEN Inter(R.con[a], R.con[b]) ELSE R.con[b]
+ChainUp(R, a, up) == IF up THEN Anc(R, a) ELSE {}
+AliasCons(R, a, b, adopt, up) ==
+  LET nc == AliasShared(R, a, b) IN
+  [p \in R.par |->
+     IF R.con[b] = NoCon THEN (IF p = b /\ adopt THEN R.con[a] ELSE R.con[p])
+     ELSE IF p = a \/ p = b THEN nc
+     ELSE IF p \in ChainUp(R, a, up) THEN (IF R.con[p] = NoCon THEN nc ELSE Inter(R.con[p], nc))
+     ELSE R.con[p]]
+\* a current value does not fit the constraint its parameter would get: the
+\* request must be refused (a constrained parameter never holds a rejected value)
+AliasConflict(R, a, b, adopt, up) ==
+  LET nc == AliasCons(R, a, b, adopt, up) IN \E p \in R.par : ~Accepts(nc[p], R.val[p])
+AliasRefusedC(R, a, b, adopt, up) == IF AliasRefused(R, a, b) THEN TRUE ELSE AliasConflict(R, a, b, adopt, up)
+
+AliasEff(R, a, b, adopt, up) ==
+  LET T == {a} \cup ChainUp(R, a, up) IN
   [R EXCEPT !.al  = Put(R.al, b, a),
             !.ind = R.ind \ {b},
-            !.con = [p \in R.par |-> IF p = a THEN nc[1] ELSE IF p = b THEN cb ELSE R.con[p]],
-            !.req = [p \in R.par |-> IF p = a THEN R.req[a] \cup R.req[b] ELSE R.req[p]]]
+            !.con = AliasCons(R, a, b, adopt, up),
+            !.req = [p \in R.par |-> IF p \in T THEN R.req[p] \cup R.req[b] ELSE R.req[p]]]
 
 UnaliasRefused(R, a, b) == a \notin R.par \/ b \notin R.par \/ b \notin DOMAIN R.al \/ R.al[b] # a
 UnaliasEff(R, a, b) == [R EXCEPT !.al = Remove(R.al, b), !.ind = R.ind \cup {b}]
@@ -137,7 +157,7 @@ BulkBegin(R, o, m) ==
   [pc |-> "loop", o |-> o, m |-> m, rest |-> m, cur |-> FirstKey(m), have |-> R.par \ DOMAIN m,
    prev |-> Cardinality(DOMAIN m), order |-> <<>>]
 
-BulkIter(R, b) ==
+BulkIter(R, b, up) ==
   IF b.cur = 0
   THEN IF DOMAIN b.rest = {} THEN [R |-> R, b |-> [b EXCEPT !.pc = "ok"]]
        ELSE IF Cardinality(DOMAIN b.rest) = b.prev THEN [R |-> R, b |-> [b EXCEPT !.pc = "raise"]]    \* cycle among the rest
@@ -146,9 +166,9 @@ BulkIter(R, b) ==
        IF s \notin b.have
        THEN IF s \notin R.par THEN [R |-> R, b |-> [b EXCEPT !.pc = "raise"]]                           \* unknown source
             ELSE [R |-> R, b |-> [b EXCEPT !.cur = NextKey(b.rest, k)]]                                 \* later pass
-       ELSE IF AliasRefused(R, s, k) THEN [R |-> R, b |-> [b EXCEPT !.pc = "raise"]]
+       ELSE IF AliasRefusedC(R, s, k, FALSE, up) THEN [R |-> R, b |-> [b EXCEPT !.pc = "raise"]]
        ELSE LET rest2 == Remove(b.rest, k) IN
-            [R |-> AliasEff(R, s, k, FALSE),
+            [R |-> AliasEff(R, s, k, FALSE, up),
              b |-> [b EXCEPT !.rest = rest2, !.cur = NextKey(rest2, k), !.have = @ \cup {k}, !.order = Append(@, k)]]
 
 RECURSIVE MapRoot(_, _, _)
@@ -157,12 +177,9 @@ MapRoot(m, k, n) == IF n = 0 \/ k \notin DOMAIN m THEN k ELSE MapRoot(m, m[k], n
 SyncWrites(R, b) == [i \in DOMAIN b.order |-> <<b.order[i], R.val[MapRoot(b.m, b.order[i], Cardinality(DOMAIN b.m))]>>]
 
 \* state after the first n links of the sequence `order` (each link is Alias(m[k], k))
-RECURSIVE AfterLinks(_, _, _, _)
-AfterLinks(R, m, order, n) == IF n = 0 THEN R ELSE AliasEff(AfterLinks(R, m, order, n - 1), m[order[n]], order[n], FALSE)
-
-\* every value of the owner is inside every constraint of the owner: then no
-\* link of a bulk call and no synchronisation can run into a constraint
-AllInside(R) == \A p, q \in R.par : Accepts(R.con[q], R.val[p])
+RECURSIVE AfterLinks(_, _, _, _, _)
+AfterLinks(R, m, order, n, up) ==
+  IF n = 0 THEN R ELSE AliasEff(AfterLinks(R, m, order, n - 1, up), m[order[n]], order[n], FALSE, up)
 
 \* ------------------------------------------------------------------ actions
 Init == own = <<>> /\ bulk = Idle /\ out = [op |-> "Init", o |-> 0, t |-> 0, r |-> "ok"]
@@ -171,23 +188,22 @@ Quiet == bulk.pc = "idle"
 Ret(op, o, t, r) == out' = [op |-> op, o |-> o, t |-> t, r |-> r]
 Upd(o, R) == own' = [own EXCEPT ![o] = R]
 
-NewRec(P, val, con) ==
-  [par |-> P, val |-> val, con |-> con, al |-> <<>>, ind |-> P, ns |-> 0,
+NewRec(P, val, con, n) ==
+  [par |-> P, val |-> val, con |-> con, al |-> <<>>, ind |-> P, ns |-> n,
    req |-> [p \in P |-> IF con[p] = NoCon THEN {} ELSE {con[p]}]]
 
-New(o, P, val, con) ==
+New(o, P, val, con, n) ==
   /\ Quiet /\ o \notin Live
   /\ \A p \in P : Accepts(con[p], val[p])
-  /\ own' = Put(own, o, NewRec(P, val, con))
+  /\ own' = Put(own, o, NewRec(P, val, con, n))
   /\ Ret("New", o, 0, "ok") /\ UNCHANGED bulk
 
-Alias(o, a, b, adopt) ==
+Alias(o, a, b, adopt, up) ==
   /\ Quiet /\ o \in Live
   /\ LET R == own[o] IN
-     IF AliasRefused(R, a, b)
+     IF AliasRefusedC(R, a, b, adopt, up)
      THEN Ret("Alias", o, 0, "raise") /\ UNCHANGED <<own, bulk>>
-     ELSE /\ AliasInside(R, a, b)
-          /\ Upd(o, AliasEff(R, a, b, adopt)) /\ Ret("Alias", o, 0, "ok") /\ UNCHANGED bulk
+     ELSE Upd(o, AliasEff(R, a, b, adopt, up)) /\ Ret("Alias", o, 0, "ok") /\ UNCHANGED bulk
 
 Unalias(o, a, b) ==
   /\ Quiet /\ o \in Live
@@ -199,10 +215,10 @@ Unalias(o, a, b) ==
 SetByName(o, a, v) ==
   /\ Quiet /\ o \in Live
   /\ LET R == own[o] IN
-     IF a \notin R.par \/ ~Accepts(R.con[a], v)
+     \* a value that a or one of its followers rejects can never become the common value: refused
+     IF (IF a \notin R.par THEN TRUE ELSE ~SetAcceptable(R, a, v))
      THEN Ret("Set", o, 0, "raise") /\ UNCHANGED <<own, bulk>>
-     ELSE /\ SetAcceptable(R, a, v)
-          /\ Upd(o, SetDef(R, a, v)) /\ Ret("Set", o, 0, "ok") /\ UNCHANGED bulk
+     ELSE Upd(o, SetDef(R, a, v)) /\ Ret("Set", o, 0, "ok") /\ UNCHANGED bulk
 
 \* setParametersValues / matchParametersValues of the owner
 BulkSet(o, ws, op) ==
@@ -211,8 +227,7 @@ BulkSet(o, ws, op) ==
      /\ WritesConsistent(R, ws)
      /\ IF WritesRejected(R, ws)
         THEN Ret(op, o, 0, "raise") /\ UNCHANGED <<own, bulk>>
-        ELSE /\ WritesAcceptable(R, ws)
-             /\ Upd(o, Writes(R, ws, FALSE)) /\ Ret(op, o, 0, "ok") /\ UNCHANGED bulk
+        ELSE Upd(o, Writes(R, ws, FALSE)) /\ Ret(op, o, 0, "ok") /\ UNCHANGED bulk
 
 CopyConstruct(s, t) ==
   /\ Quiet /\ s \in Live /\ t \notin Live
@@ -232,13 +247,20 @@ Drop(o) ==
 
 \* bulk alias: the call, its loop iterations, its return
 BulkCall(o, m) ==
-  /\ Quiet /\ o \in Live /\ own[o].ns = 0 /\ AllInside(own[o])
+  /\ Quiet /\ o \in Live
   /\ bulk' = BulkBegin(own[o], o, m)
   /\ Ret("BulkAlias", o, 0, "run") /\ UNCHANGED own
 
+\* Under a non-empty namespace the interface does not say how the names of the
+\* map are spelled (the code compares them with qualified names and then links
+\* with bare ones, so it refuses every non-empty map): refusing is allowed.
+BulkRefuseNs(o, m) ==
+  /\ Quiet /\ o \in Live /\ own[o].ns # 0 /\ DOMAIN m # {}
+  /\ Ret("BulkAlias", o, 0, "raise") /\ UNCHANGED <<own, bulk>>
+
 BulkStep ==
   /\ bulk.pc = "loop"
-  /\ LET S == BulkIter(own[bulk.o], bulk) IN Upd(bulk.o, S.R) /\ bulk' = S.b
+  /\ LET S == BulkIter(own[bulk.o], bulk, TRUE) IN Upd(bulk.o, S.R) /\ bulk' = S.b
   /\ UNCHANGED out
 
 BulkReturnRaise ==
@@ -257,8 +279,8 @@ BulkReturnOk ==
 ConFns(P) == [P -> Cons]
 WriteLists == UNION {[1..n -> Names \X Vals] : n \in 1..MaxWrites}
 
-DoNew     == \E o \in Owners, P \in ParSets : \E val \in [P -> Vals], con \in ConFns(P) : New(o, P, val, con)
-DoAlias   == \E o \in Live, a, b \in Names : Alias(o, a, b, FALSE)
+DoNew     == \E o \in Owners, P \in ParSets, n \in NSs : \E val \in [P -> Vals], con \in ConFns(P) : New(o, P, val, con, n)
+DoAlias   == \E o \in Live, a, b \in Names : Alias(o, a, b, FALSE, TRUE)
 DoUnalias == \E o \in Live, a, b \in Names : Unalias(o, a, b)
 DoSet     == \E o \in Live, a \in Names, v \in Vals : SetByName(o, a, v)
 DoBulkSet == \E o \in Live, ws \in WriteLists : BulkSet(o, ws, "BulkSet")
@@ -268,10 +290,11 @@ DoAssign  == \E s \in Live, t \in Owners : AssignOwner(s, t)
 DoSetNs   == \E o \in Live, n \in NSs : SetNamespace(o, n)
 DoDrop    == \E o \in Live : Drop(o)
 DoBulk    == \E o \in Live, m \in Maps : BulkCall(o, m)
+DoBulkNs  == \E o \in Live, m \in Maps : BulkRefuseNs(o, m)
 BulkRun   == BulkStep \/ BulkReturnRaise \/ BulkReturnOk
 
 Next == DoNew \/ DoAlias \/ DoUnalias \/ DoSet \/ DoBulkSet \/ DoMatch \/ DoCopy \/ DoAssign \/ DoSetNs \/ DoDrop
-        \/ DoBulk \/ BulkStep \/ BulkReturnRaise \/ BulkReturnOk
+        \/ DoBulk \/ DoBulkNs \/ BulkStep \/ BulkReturnRaise \/ BulkReturnOk
 
 Spec     == Init /\ [][Next]_vars
 FairSpec == Spec /\ WF_vars(BulkRun)
@@ -293,6 +316,10 @@ ParamOK         == \A o \in Live : \A p \in own[o].par : Accepts(own[o].con[p], 
 \* because the constraint p carries lies within each of them
 SharedConstraint == \A o \in Live : \A p \in own[o].par : \A I \in own[o].req[p] : Accepts(I, own[o].val[p])
 ConWithinHad     == \A o \in Live : \A p \in own[o].par : \A I \in own[o].req[p] : Within(own[o].con[p], I)
+\* design of the code (up = TRUE): a source is at least as tight as everything that follows it,
+\* hence a value the written parameter accepts is accepted all the way down (no half-done update)
+ChainTight       == \A o \in Live : \A b \in own[o].par : \A a \in Anc(own[o], b) : Within(own[o].con[a], own[o].con[b])
+WriteAllOrNothing == \A o \in Live : \A a \in own[o].par, v \in Vals : Accepts(own[o].con[a], v) => SetAcceptable(own[o], a, v)
 
 Stays(o) == o \in Live /\ o \in DOMAIN own' /\ own'[o].par = own[o].par
 IsUpdate == out'.op \in {"Set", "BulkSet", "Match", "BulkAlias"}
